@@ -1264,7 +1264,12 @@ HARNESSES += [
         _call('unmarshal Basic.Ack ch 2',
               lambda p: _view(p.frame.unmarshal(ACK2))),
         _call('unmarshal Basic.Ack ch 1 again',
-              lambda p: _view(p.frame.unmarshal(ACK)))], 2, 2),
+              lambda p: _view(p.frame.unmarshal(ACK)))], None, 2),
+    ('peek ch 1 || peek ch 2 || peek ch 1 (3 threads)', [
+        _call('frame_parts(ACK)', lambda p: list(p.frame.frame_parts(ACK))),
+        _call('frame_parts(ACK2)', lambda p: list(p.frame.frame_parts(ACK2))),
+        _call('frame_parts(ACK) again',
+              lambda p: list(p.frame.frame_parts(ACK)))], 3, 4),
     ('peek ch 1 ; decode || peek ch 2 ; decode ; peek ch 1', [
         _seq(_call('frame_parts(ACK)',
                    lambda p: list(p.frame.frame_parts(ACK))),
